@@ -359,6 +359,9 @@ func Check(cfg Config, sources []Source) *Result {
 				// a load of a private local cell (a field of a local struct that stands for a local variable)
 				ev = cellEvidence(v, r, facts)
 			}
+			if ev == "" && cfg.PairRule {
+				ev = pairCellEvidence(v, facts)
+			}
 			if ev == "" {
 				ev = preGuarded[v]
 			}
@@ -929,6 +932,76 @@ func cellEvidence(v ssa.Value, r ssa.Instruction, facts []flow.Fact) string {
 		if k.provenBy([]flow.Fact{f}, v.(ssa.Instruction)) && k.provenBy([]flow.Fact{f}, r) {
 			return "nil test of the variable"
 		}
+	}
+	return ""
+}
+
+// onlyStoreBefore: the cell has one store in all, it stores result #idx (-1: the last) of a call, and it is executed
+// before the load ld on every way to it.
+func (k cellKey) onlyStoreBefore(ld ssa.Instruction, idx int) (*ssa.Store, *ssa.Extract) {
+	sts := k.stores()
+	if len(sts) != 1 {
+		return nil, nil
+	}
+	st := sts[0]
+	ex, ok := st.Val.(*ssa.Extract)
+	if !ok {
+		return nil, nil
+	}
+	if _, isCall := ex.Tuple.(*ssa.Call); !isCall {
+		return nil, nil
+	}
+	want := idx
+	if idx < 0 {
+		want = ex.Tuple.Type().(*types.Tuple).Len() - 1
+	}
+	if ex.Index != want {
+		return nil, nil
+	}
+	if st.Block() == ld.Block() {
+		if flow.Index(st) > flow.Index(ld) {
+			return nil, nil
+		}
+	} else if !st.Block().Dominates(ld.Block()) {
+		return nil, nil
+	}
+	return st, ex
+}
+
+// pairCellEvidence is the pair rule (`exe, err := f(); if err == nil { use exe }`) for results that are kept in the
+// fields of a private local record (`act.exe, act.err = f(); if act.err == nil { use act.exe }`): v reads a cell whose
+// only store keeps result #0 of a call, a fact says that a read of another cell is nil, that cell's only store keeps
+// the error of the same call, both stores are executed together and before the reads.
+func pairCellEvidence(v ssa.Value, facts []flow.Fact) string {
+	k, ok := cellOfLoad(v)
+	if !ok {
+		return ""
+	}
+	stV, exV := k.onlyStoreBefore(v.(ssa.Instruction), 0)
+	if stV == nil {
+		return ""
+	}
+	for _, f := range facts {
+		bo, ok := f.Cond.(*ssa.BinOp)
+		if !ok || (bo.Op != token.EQL && bo.Op != token.NEQ) {
+			continue
+		}
+		x, y := bo.X, bo.Y
+		if ssau.IsNilConst(x) {
+			x, y = y, x
+		}
+		if !ssau.IsNilConst(y) || (bo.Op == token.EQL) != f.True {
+			continue
+		}
+		ke, isCell := cellOfLoad(x)
+		if !isCell || ke == k || x.Type().String() != "error" {
+			continue
+		}
+		stE, exE := ke.onlyStoreBefore(x.(ssa.Instruction), -1)
+		if stE == nil || exE.Tuple != exV.Tuple || stE.Block() != stV.Block() || exE.Index == exV.Index {
+			continue
+		}
+		return "err == nil edge of the producing call (results kept in a local record)"
 	}
 	return ""
 }
